@@ -293,6 +293,10 @@ func (c *Cache) getSubscription(name string, subscribe bool) (*EventSubscription
 		})
 		if err != nil {
 			verifNote("cacheGetFail", "name", name, "count", eventSub.count, "created", !ok)
+			// Give back the use counted above, or the entry is never evicted
+			eventSub.mu.Lock()
+			eventSub.removeCount(1)
+			eventSub.mu.Unlock()
 			return nil, err
 		}
 
